@@ -50,8 +50,14 @@ def mk_cycle(rng, cause, sm, base):
         if sm == 'threading':
             pool['start_method'] = 'fork'
     elif cause == 'sigint':
-        call['sigint'] = {'mode': 'time', 'delay': round(rng.uniform(0.0, 0.25), 3), 'group': rng.random() < 0.5}
         call['n'] = 30
+        if rng.random() < 0.5:
+            call['sigint'] = {'mode': 'time', 'delay': round(rng.uniform(0.0, 0.25), 3), 'group': rng.random() < 0.5}
+        else:
+            # exactly at a point inside / around the library's own signal masking (deterministic: setprofile injection)
+            pat = rng.choice([r'cret\|comms\.py:\d+:put', r'call\|signal\.py:__exit__:\d+', r'call\|signal\.py:__enter__:\d+',
+                              r'call\|comms\.py:add_task:\d+', r'cret\|comms\.py:\d+:get', r'call\|signal\.py:handler:\d+'])
+            call['sigint'] = {'mode': 'line', 'at_re': pat, 'hit': rng.choice([1, 2, 5, 9])}
     elif cause == 'abandoned_imap':
         call['kind'] = rng.choice(['imap', 'imap_unordered'])
         call['consume'] = 1
